@@ -12,7 +12,7 @@ from typing import Callable, Any, Optional, Dict, Set, List, Type
 
 # Local imports
 from .datatype import datatype, AllowArbConfig
-from .params import _unique_name, hasparams, isparamclass
+from .params import _unique_name, _holds_nan, hasparams, isparamclass
 from .default import Default
 from .call import param_call
 from .source_info import SourceInfo, source_info
@@ -151,6 +151,12 @@ class GeneratorCall:
 
 def run(call: GeneratorCall) -> Module:
     """Run Generator-function-call `call`. Returns the generated Module."""
+
+    # Generator calls are identified, cached and named by their parameter *values*.
+    # That takes values which are equal to themselves: the float NaN is not.
+    # Two calls with it would be two different calls, producing two different Modules under one name.
+    if isparamclass(call.params) and _holds_nan(call.params):
+        raise RuntimeError(f"Invalid NaN parameter value in generator call {call}")
 
     # First and foremost - caching.
     # See if we've already run this generator-parameters combo.
